@@ -133,6 +133,110 @@ static void cmd_raw(Toks& t, std::ostream& os) {
   os << " V " << hexd(co.group_delta_) << ' ' << hexd(co.steps_per_rad_) << ' ' << hexd(co.step_sin_) << ' ' << hexd(co.step_cos_) << ' ' << hexd(co.temp_lim_);
 }
 
+// ---------------------------------------------------------------------------------------------- delta callbacks
+// A callback that is a pure function of (path length, vertex index): the value `z` at the selected vertices, `d` elsewhere.
+// sel: 0 nowhere (constant d)  1 everywhere  2 where bit (j mod 16) of mask is set  3 first vertex  4 last vertex  5 first and last
+struct CbSpec { int sel; unsigned mask; double z, d; };
+static bool cb_selected(const CbSpec& s, size_t n, size_t j) {
+  switch (s.sel) {
+    case 0: return false;
+    case 1: return true;
+    case 2: return ((s.mask >> (j % 16)) & 1u) != 0;
+    case 3: return j == 0;
+    case 4: return j + 1 == n;
+    default: return j == 0 || j + 1 == n;
+  }
+}
+static double cb_value(const CbSpec& s, size_t n, size_t j) { return cb_selected(s, n, j) ? s.z : s.d; }
+static CbSpec read_cbspec(Toks& t) { CbSpec s; s.sel = t.i32(); s.mask = (unsigned)t.i32(); s.z = t.dbl(); s.d = t.dbl(); return s; }
+
+// RAWCB <sel> <mask> <z> <d> <ml> <at> <jt> <et> <paths>
+// DoGroupOffset on one group with the callback installed (delta_ = 1.0 as Execute(cb, paths) sets it).  Besides the raw
+// curves every call of the callback is reported with the points the library emitted between this call and the next one
+// (= the construction at that vertex): K <ncalls> { pi n j k val vx vy <chunk path> }.  pi = -1: reversed copy (Joined).
+static void cmd_rawcb(Toks& t, std::ostream& os) {
+  CbSpec s = read_cbspec(t);
+  double ml = t.dbl(), at = t.dbl(); int jt = t.i32(), et = t.i32(); Paths64 ps = t.paths();
+  ClipperOffset co(ml, at, false, false);
+  co.AddPaths(ps, jt_of(jt), et_of(et));
+  Paths64 raw;
+  if (co.groups_.empty()) { os << "OK R 0 K 0"; return; }
+  struct Call { int pi; size_t n, j, k; double val; int64_t vx, vy; size_t sol, pos; };
+  std::vector<Call> calls;
+  co.SetDeltaCallback([&](const Path64& path, const PathD&, size_t j, size_t k) -> double {
+    int pi = -1;
+    for (size_t b = 0; b < co.groups_[0].paths_in.size(); ++b) if (&co.groups_[0].paths_in[b] == &path) { pi = (int)b; break; }
+    double v = cb_value(s, path.size(), j);
+    calls.push_back(Call{pi, path.size(), j, k, v, path[j].x, path[j].y, raw.size(), co.path_out.size()});
+    return v;
+  });
+  co.solution = &raw;
+  co.temp_lim_ = (co.miter_limit_ <= 1) ? 2.0 : 2.0 / (co.miter_limit_ * co.miter_limit_);
+  co.delta_ = 1.0;
+  co.DoGroupOffset(co.groups_[0]);
+  co.solution = nullptr;
+  os << "OK R "; put(os, raw);
+  os << " K " << calls.size();
+  for (size_t i = 0; i < calls.size(); ++i) {
+    const Call& c = calls[i];
+    Path64 chunk;
+    if (c.sol < raw.size()) {
+      size_t end = (i + 1 < calls.size() && calls[i + 1].sol == c.sol) ? calls[i + 1].pos : raw[c.sol].size();
+      end = std::min(end, raw[c.sol].size());
+      for (size_t q = c.pos; q < end; ++q) chunk.push_back(raw[c.sol][q]);
+    }
+    os << ' ' << c.pi << ' ' << c.n << ' ' << c.j << ' ' << c.k << ' ' << hexd(c.val) << ' ' << c.vx << ' ' << c.vy << ' ';
+    put(os, chunk);
+  }
+}
+
+static void ser_tree(std::ostream& os, const PolyPath64& n) {
+  os << '('; put(os, n.Polygon()); os << ' ' << n.Count();
+  for (auto& c : n) { os << ' '; ser_tree(os, *c); }
+  os << ')';
+}
+
+// CBX <sel> <mask> <z> <d> <ml> <at> <pc> <rev> <delta2> <ngroups> { <jt> <et> <paths> }*      public API only
+//   A   fresh object, Execute(cb, SA) with SA holding other paths when it is passed in
+//   ov  = SA equals SetDeltaCallback(cb) + Execute(1.0, paths) on a fresh object
+//   rep = Execute(cb, .) a second time on the same object, into a container that holds the first result
+//   tr  = Execute(1.0, tree) on the used object, into a tree that holds another result, equals the tree of a fresh object
+//         with the callback installed;  tp = the paths of that tree are the paths of SA (as multisets)
+//   hist= Execute(delta2, paths) on the used object (Execute(cb, .) leaves the callback installed) equals a fresh object on
+//         which SetDeltaCallback(cb) was called;  leak = 1 when it differs from a fresh object WITHOUT callback (reported only)
+//   pl  = (sel 0 only) SA equals Execute(d, paths) of a fresh object without callback
+//   id  = (all groups Polygon, every vertex selected, |z| <= 1e-12) SA equals Execute(0.25, paths): nothing moves
+static void cmd_cbx(Toks& t, std::ostream& os) {
+  CbSpec s = read_cbspec(t);
+  double ml = t.dbl(), at = t.dbl(); bool pc = t.b(), rev = t.b(); double delta2 = t.dbl();
+  int ng = t.i32();
+  std::vector<GroupIn> gs;
+  for (int i = 0; i < ng; ++i) { GroupIn g; g.jt = t.i32(); g.et = t.i32(); g.paths = t.paths(); gs.push_back(std::move(g)); }
+  DeltaCallback64 cb = [s](const Path64& path, const PathD&, size_t j, size_t) -> double { return cb_value(s, path.size(), j); };
+  const Paths64 junk{ Path64{ {-7, -7}, {9, -7}, {9, 9} }, Path64{ {1, 1} } };
+  auto fill_tree = [](PolyTree64& tr) { ClipperOffset x; x.AddPath(Path64{ {0, 0}, {50, 0}, {50, 50}, {0, 50} }, JoinType::Miter, EndType::Polygon); x.Execute(5.0, tr); };
+  auto sorted = [](Paths64 p) { std::sort(p.begin(), p.end(), [](const Path64& a, const Path64& b) {
+      return std::lexicographical_compare(a.begin(), a.end(), b.begin(), b.end(), [](const Point64& u, const Point64& v) { return u.x != v.x ? u.x < v.x : u.y < v.y; }); }); return p; };
+  ClipperOffset a(ml, at, pc, rev); add_groups(a, gs);
+  Paths64 SA = junk; a.Execute(cb, SA);
+  int errA = a.ErrorCode();
+  Paths64 SB; { ClipperOffset b(ml, at, pc, rev); add_groups(b, gs); b.SetDeltaCallback(cb); b.Execute(1.0, SB); }
+  Paths64 SA2 = SA; a.Execute(cb, SA2);
+  std::string TA, TB; Paths64 TP;
+  { PolyTree64 tr; fill_tree(tr); a.Execute(1.0, tr); std::ostringstream o; ser_tree(o, tr); TA = o.str(); TP = PolyTreeToPaths64(tr); }
+  { ClipperOffset b(ml, at, pc, rev); add_groups(b, gs); b.SetDeltaCallback(cb); PolyTree64 tr; b.Execute(1.0, tr); std::ostringstream o; ser_tree(o, tr); TB = o.str(); }
+  Paths64 SD = junk, SC, SE;
+  a.Execute(delta2, SD);
+  { ClipperOffset c(ml, at, pc, rev); add_groups(c, gs); c.SetDeltaCallback(cb); c.Execute(delta2, SC); }
+  { ClipperOffset e(ml, at, pc, rev); add_groups(e, gs); e.Execute(delta2, SE); }
+  int pl = -1, id = -1;
+  if (s.sel == 0) { ClipperOffset p(ml, at, pc, rev); add_groups(p, gs); Paths64 SP; p.Execute(s.d, SP); pl = (SP == SA); }
+  bool allpoly = true; for (auto& g : gs) if (g.et != (int)EndType::Polygon) allpoly = false;
+  if (s.sel == 1 && std::fabs(s.z) <= 1e-12 && allpoly) { ClipperOffset p(ml, at, pc, rev); add_groups(p, gs); Paths64 SI = junk; p.Execute(0.25, SI); id = (SI == SA); }
+  os << "OK " << errA << " ov=" << (SA == SB) << " rep=" << (SA2 == SA) << " tr=" << (TA == TB) << " tp=" << (sorted(TP) == sorted(SA))
+     << " hist=" << (SD == SC) << " leak=" << (SD != SE) << " pl=" << pl << " id=" << id << " S "; put(os, SA);
+}
+
 static void cmd_nrm(Toks& t, std::ostream& os) {
   Path64 p = t.path();
   ClipperOffset co;
@@ -183,6 +287,8 @@ int main() {
     else if (c == "INF") cmd_inf(t, os);
     else if (c == "GROUP") cmd_group(t, os);
     else if (c == "RAW") cmd_raw(t, os);
+    else if (c == "RAWCB") cmd_rawcb(t, os);
+    else if (c == "CBX") cmd_cbx(t, os);
     else if (c == "NRM") cmd_nrm(t, os);
     else if (c == "LIBM") cmd_libm(t, os);
     else if (c == "FOP") cmd_fop(t, os);
